@@ -28,6 +28,9 @@ ASYM.update({"bp256a": ("EC", 256, "brainpoolP256r1"), "bp384a": ("EC", 384, "br
 for _c, _b, _n in (("p256", 256, "P-256"), ("p384", 384, "P-384"), ("p521", 521, "P-521"), ("k256", 256, "secp256k1")):
     for _z in ("zx", "zy", "zd"):
         ASYM[_c + _z] = ("EC", _b, _n)
+for _c, _b, _n in (("ed25519", 256, "Ed25519"), ("ed448", 456, "Ed448")):
+    for _z in ("zx", "zd"):
+        ASYM[_c + _z] = ("OKP", _b, _n)
 
 
 def asym(base, priv=1, alg="~", kid="~", **kw):
@@ -79,6 +82,8 @@ def c16_walks(nwalks, length):
         for _ in range(nwalks):
             ops, count = [], 0
             live = False
+            if rnd.random() < 0.5:
+                ops.append(dict(op="Ops", name="gnutls"))
             for _ in range(length):
                 x = rnd.random()
                 if not live or x < 0.30:
@@ -88,6 +93,10 @@ def c16_walks(nwalks, length):
                         k = octk(rnd.choice([32, 48, 64]), var=rnd.choice("ab"), alg=rnd.choice(["~", "HS256"]), kid=rnd.choice(kids))
                         if rnd.random() < 0.3:
                             k = defect(k, "k", rnd.choice(["absent", "number", "empty"]))
+                        elif rnd.random() < 0.3:    # keys that own provider-side objects
+                            k = asym(rnd.choice(["p256a", "ed25519a", "rsa2048a", "p384a"]), priv=rnd.choice([0, 1]), kid=rnd.choice(kids))
+                            if rnd.random() < 0.2:
+                                k = defect(k, "x" if k["kty"] != "RSA" else "n", rnd.choice(["absent", "short", "notb64"]))
                         keys.append(k)
                     doc = rnd.choice(["keys", "keys", "single"]) if n == 1 else "keys"
                     if rnd.random() < 0.07:
@@ -451,6 +460,8 @@ def c07_fuzz(ncases, per_case):
                         pos = rnd.randrange(0, len(b) + 1)
                         if k < 0.08:
                             b[pos:pos] = rnd.choice(convs)
+                        elif k < 0.16:      # characters beyond ASCII, as valid UTF-8 (the text stays JSON)
+                            b[pos:pos] = rnd.choice(["\u00e9", "\u20ac", "\U0010ffff", "\u00ff\u0080"]).encode()
                         elif k < 0.4 and pos < len(b):
                             b[pos] = rnd.choice([0x22, 0x7b, 0x7d, 0x5b, 0x5d, 0x2c, 0x3a, 0x5c, 0x00, 0xff, 0x41, 0x3d, 0x2d])
                         elif k < 0.6 and pos < len(b):
@@ -477,6 +488,18 @@ def c07_fuzz(ncases, per_case):
                     live = False
             yield ops
     return gen
+
+
+def under_provider(every, name="gnutls"):
+    """Every script as it is, and every `every`-th one once more with the other provider selected first."""
+    def expand(scripts, seed):
+        i = 0
+        for s in scripts:
+            yield s
+            i += 1
+            if i % every == 0:
+                yield [dict(op="Ops", name=name)] + list(s)
+    return expand
 
 
 # ------------------------------------------------------------------- C08
@@ -510,6 +533,26 @@ def c08_fresh(n, every=1):
 
 # ------------------------------------------------------------------- C11
 _B64U = b"ABCDEFGHIJKLMNOPQRSTUVWXYZabcdefghijklmnopqrstuvwxyz0123456789-_"
+
+
+def c11_users(maxlen):
+    """The codec as its callers use it: token segments whose JSON text has every length up to maxlen
+    (all residues mod 3 and mod 4: the callers terminate / measure what the decoder returned), unsigned
+    and HS256-signed, read back by a callback; oct JWKs with k of every length."""
+    def gen(seed):
+        for n in range(0, maxlen):
+            ops = [dict(op="CNew", c=0), dict(op="CSetCb", c=0, prog=[dict(k="read")])]
+            for h in (0, 1, 2):
+                hm = [mem("h", "str", "y" * (n % 5 + h))] if (n + h) % 2 else []
+                ops.append(dict(op="Verify", c=0, tok=forge("none", hdr_m=hm, pay_m=[mem("p", "str", "x" * n)])))
+            yield ops
+            k = octk(32)
+            yield [dict(op="Load", ring=0, via="create", doc="keys", keys=[k]), dict(op="CNew", c=0),
+                   dict(op="CSetKey", c=0, alg="HS256", ring=0, key=0),
+                   dict(op="Verify", c=0, tok=forge("HS256", pay_m=[mem("p", "str", "x" * n), mem("n", "int", "", None)], sigcls="valid", sigkey=k)),
+                   dict(op="Load", ring=0, via="load", doc="keys", keys=[octk(n + 1, var="b")]),
+                   dict(op="ItemGet", ring=0, index=1)]
+    return gen
 
 
 def c11_random(ncases, per_case):
@@ -584,7 +627,7 @@ def api_walks(ncases, length):
                         v = val("int", n)
                     ops.append(dict(op="BMap", b=o, k=k, which=which, v=v, map=0))
                 elif r < 0.30:
-                    ops.append(dict(op="BIat", b=o, enable=rnd.choice([0, 1])))
+                    ops.append(dict(op="BIat", b=o, enable=rnd.choice([0, 1, 1, 2, -1, 256])))
                 elif r < 0.35:
                     ops.append(dict(op="BOffset", b=o, claim=rnd.choice(["exp", "nbf", "iat"]), secs=W(rnd.choice([-5, 0, 1, 30, 3600]))))
                 elif r < 0.41:
